@@ -4,5 +4,6 @@ import "verif/sim/simkit"
 
 type faultT = simkit.Fault
 
-func registerPW() {}
 func registerBW() {}
+func bwC12Legs() []Leg { return nil }
+func bwC19Legs() []Leg { return nil }
